@@ -219,6 +219,11 @@ func (m *machine) snapshot(pi int) snap {
 			s.Book = append(s.Book, "bind:"+rs.ref.String())
 		}
 	}
+	// the stack's own client-side bookkeeping: its node management feature subscribes to the peer's node management
+	// when the peer has announced itself - that refers to the device as well
+	if nm := m.w.Local.NodeManagement(); nm != nil && nm.HasSubscriptionToRemote(p.NM()) {
+		s.Book = append(s.Book, "sub:node-management-of-the-stack")
+	}
 	sort.Strings(s.Subs)
 	sort.Strings(s.Binds)
 	sort.Strings(s.Book)
